@@ -166,7 +166,7 @@ func (w *wf) affine1(v ssa.Value) aff {
 			n := 0
 			same := true
 			for i, e := range x.Edges {
-				if !w.res.Exec[x.Block().Preds[i]] {
+				if !w.res.edgeExec(x.Block().Preds[i], x.Block()) {
 					continue
 				}
 				a := w.affine(e)
